@@ -33,11 +33,16 @@ ops, adapter side:
   ub:n:seed[:cut]   the caller's unframed buffer (two chunks when cut is given)
   ps1 / ps / psall  poll_send once / awaited / until the buffer is empty       -> ps1=<written>|pending|refused|err:<class> /<left>
   split   z0 (is_0rtt)   zacc (was 0-RTT accepted)
-  dgs:sid:n:seed  send_datagram     dgr1 / dgr  poll_incoming_datagram once / awaited
+  dgs:sid:n:seed[:cut,cut…]  send_datagram (the payload a multi-chunk Buf when cuts are given)
+  dgr1 / dgr  poll_incoming_datagram once / awaited     dgrd  … and decoded by h3-datagram -> dgrd=<sid>:<len>:<hash>
+  sdm:n:seed:cut,cut…  the Chain variant of sd: a uni stream typed for a multi-chunk Buf is opened through the Connection,
+         one DATA frame with the payload cut at these positions written (send_data + awaited poll_ready) and finished -> sdm=<id>
+  dgmax  Quinn's max_datagram_size() right now (cfg `dgmax=<n>` = what the line says it is: the environment parameter of
+         the model; with it MTU discovery is off and the path MTU is `mtu=<n>`, default 1200)     dgh  drop both handlers
 ops, raw Quinn peer:
   pmb:n / pmu:n   set max_concurrent_bi/uni_streams    pob / pou   open one more stream (one byte written)
   pacc:bi|uni:n   accept the next n streams, read each to the end -> pacc=<id>:<len>:<hash>:fin,...
-  pclosedr   like pclosed, with the reason    pdg / pdgs:n:seed  read / send a datagram
+  pclosedr   like pclosed, with the reason    pdg / pdgs:n:seed[:sid]  read / send a datagram (varint(sid/4) in front)
   pkill   (hs=kill) the peer's endpoint disappears; a fresh endpoint with the same reset key takes its port
 
 The generator stays inside the region where Quinn's behaviour is a function of the scenario (no races):
@@ -61,6 +66,25 @@ def wire_len(f, n):
     if f == "U":
         return 2 + 1 + enc_len(n) + n
     return 1 + enc_len(n) + n
+
+
+DGMAX_CACHE = {}
+
+
+def probe_dgmax(mtu):
+    """Quinn's max_datagram_size() for a path MTU, asked of the real thing (the model takes it as a parameter)"""
+    if mtu not in DGMAX_CACHE:
+        import vlib
+        line = "quinn role=c,kind=bi,dir=open,dgmax=0%s dgmax" % (",mtu=%d" % mtu if mtu else "")
+        val = None
+        try:
+            rc, out, err = vlib.run_lines(vlib.RUN, [line])
+            if rc == 0 and out and out[0].split(" #")[0].startswith("dgmax=") and out[0].split(" #")[0][6:].isdigit():
+                val = int(out[0].split(" #")[0][6:])
+        except Exception:
+            val = None
+        DGMAX_CACHE[mtu] = val
+    return DGMAX_CACHE[mtu]
 
 
 class Gen:
@@ -659,6 +683,85 @@ class Gen:
                 ops += ["aclose:%d" % c, "dgr1", "dgs:0:1:1", "dgr"]
         return "quinn %s %s" % (cfg, " ".join(ops))
 
+    def t_datagram_sizes(self):
+        """the datagram paths at Quinn's limit: sizes 0, 1, max-2 … max+2 (max = Quinn's max_datagram_size(), probed per
+        path MTU and carried by the line; `dgmax` makes the harness report it on every case), several datagrams
+        outstanding at once, the handlers re-created in between, the payload a multi-chunk Buf, and the receive
+        direction decoded (stream id and payload exact)."""
+        r = self.rng
+        mtu = r.choice([0, 0, 1350, 1452])
+        mx = probe_dgmax(mtu)
+        if mx is None:
+            return None
+        cfg, shape = self.cfg(send=r.random() < 0.5, recv=r.random() < 0.5,
+                              extra=["dgmax=%d" % mx] + (["mtu=%d" % mtu] if mtu else []))
+        ops = ["dgmax"]
+        sent = 0
+
+        def one_send():
+            sid = 4 * r.choice([0, 1, 15, 16, 63, 64, 4095, 4096, 16383, 16384, 2**28, 2**30, 2**60 - 1])
+            q = enc_len(sid // 4)
+            k = r.random()
+            if k < 0.55:
+                n = mx + r.choice([-2, -1, 0, 0, 1, 2]) - q
+            elif k < 0.8:
+                n = r.choice([0, 1, 2, 1009, 1024, 1025, 1100])
+            else:
+                n = r.choice([mx - q - 50, mx - q + 38, 2000, 65536])
+            n = max(0, n)
+            op = "dgs:%d:%d:%d" % (sid, n, self.seed())
+            if n >= 2 and r.random() < 0.5:
+                cuts = sorted(r.sample(range(1, n), min(n - 1, r.choice([1, 1, 2, 3]))))
+                op += ":" + ",".join(str(c) for c in cuts)
+            return op, q + n <= mx
+
+        for _ in range(r.randrange(1, 4)):
+            k = r.random()
+            if k < 0.5:
+                # several outstanding: all sent before the peer reads any
+                batch = [one_send() for _ in range(r.choice([1, 1, 2, 3]))]
+                for op, ok in batch:
+                    ops.append(op)
+                    if r.random() < 0.3:
+                        ops.append("dgh")
+                ops += ["pdg"] * sum(1 for _, ok in batch if ok)
+            elif k < 0.85:
+                m = r.choice([1, 1, 2])
+                if r.random() < 0.3:
+                    # a read is pending when the handler is dropped / when the datagram comes: nothing is lost with it
+                    ops += ["dgr1"] + (["dgh"] if r.random() < 0.5 else [])
+                for _ in range(m):
+                    sid = 4 * r.choice([0, 1, 63, 64, 16384, 2**30, 2**60 - 1])
+                    ops.append("pdgs:%d:%d:%d" % (r.choice([0, 1, 100, 1000, mx - 8]), self.seed(), sid))
+                if r.random() < 0.3:
+                    ops.append("dgh")
+                ops += [r.choice(["dgrd", "dgrd", "dgr"]) for _ in range(m)]
+            else:
+                ops.append("dgh")
+        ops += ["dgr1", "dgmax"]
+        return "quinn %s %s" % (cfg, " ".join(ops))
+
+    def t_chunked_frame(self):
+        """the `Chain` variant of sd: a DATA frame whose payload Buf has several chunks goes through send_data / the write
+        loop of poll_ready on a stream typed for that Buf; the peer reads exactly header + flattened payload (default
+        windows: the frame fits, the peer reads afterwards)."""
+        r = self.rng
+        cfg, shape = self.cfg(send=r.random() < 0.5, recv=r.random() < 0.5, skip_max=3)
+        ops = []
+        k = 0
+        for _ in range(r.randrange(1, 4)):
+            if r.random() < 0.3:
+                ops += ["ou:%s" % self.who(), "otag:%d:%d" % (r.choice([0, 1, 50]), self.seed())]
+                k += 1
+            n = r.choice([2, 3, 5, 64, 1000, 16384, 70000])
+            cuts = sorted(r.sample(range(1, n), min(n - 1, r.choice([1, 1, 2, 3, 4]))))
+            if r.random() < 0.3:
+                cuts = sorted(set([1, n - 1] + cuts))      # a one-byte chunk first and last
+            ops.append("sdm:%d:%d:%s" % (n, self.seed(), ",".join(str(c) for c in cuts)))
+            k += 1
+        ops.append("pacc:uni:%d" % k)
+        return "quinn %s %s" % (cfg, " ".join(ops))
+
     def t_special(self):
         """connection set-ups in which real Quinn raises the conditions a well-behaved peer never causes:
         rej   the client aborts the handshake (bad certificate) after the adapter side took the connection in
@@ -751,11 +854,14 @@ class C17(Prop):
             "carries a code / every accept and open call site (Connection, opener(), clone; polled once and awaited) after peer "
             "close, idle timeout and own close on every connection shape; second part: unframed fidelity / unframed "
             "partial writes / poll_send guard / poll_send errors / opening under stream limits / open+accept after failure / "
-            "close(code, reason) / accepting / datagrams / special handshakes (rej kill z0 z0r z0t z0v); the bidirectional stream "
+            "close(code, reason) / accepting / datagrams / DATA frames over a multi-chunk payload Buf (sdm) / datagrams at Quinn's max_datagram_size() (probed per path MTU, carried by "
+            "the line as dgmax=, reported by the harness on every such case: sizes 0, 1, max-2..max+2, several outstanding, handlers "
+            "re-created, multi-chunk payload Buf, the receive direction decoded) / special handshakes (rej kill z0 z0r z0t z0v); the bidirectional stream "
             "under test is left unsplit in about a third of the cases; parameters from the seeded PRNG; "
             "non-trivial = the scenario ran to the end on the real code (result is not bad-op/timeout/setup-failed/panic); "
             "distinct = distinct case lines; a case whose result contains a timeout is run a second time by the engine and "
-            "counted (NOTE line)")
+            "counted (NOTE line); more than 5 such cases in one run whose timeout the model does not predict are a BROKEN "
+            "correspondence")
     trusted = ["quinn 0.11 / quinn-proto / rustls / tokio / loopback UDP (observed, not modelled)",
                "the environment assumptions about Quinn in lean/H3/Drv/C17.lean (window budget, which Quinn error a peer action "
                "raises, first stop wins, implicit STOP_SENDING(0) on drop, a reset is reported once and reads after it answer the "
@@ -880,31 +986,51 @@ class C17(Prop):
             L.append(g.t_accept())
         for _ in range(20 * m):
             L.append(g.t_datagram())
+        for _ in range(15 * m):
+            L.append(g.t_chunked_frame())
+        for _ in range(40 * m):
+            x = g.t_datagram_sizes()
+            if x is not None:
+                L.append(x)
         for _ in range(30 * m):
             L.append(g.t_special())
         return L
 
     retries = 0
+    retried_lines = ()
+    MAX_FORGIVEN = 5     # more unexpected first-attempt timeouts than this in one run: the correspondence is BROKEN
     shrink_budget = 60   # seconds per failing case: an attempt that waits for something that never comes takes seconds
 
     def project_all(self, lines, impls):
         """the engine marks a case it had to run twice (a timeout the first time) with ` #retry`"""
         out = []
-        n = 0
-        for o in impls:
+        marked = []
+        for l, o in zip(lines, impls):
             if o.endswith(" #retry"):
-                n += 1
+                marked.append(l)
                 o = o[:-len(" #retry")]
             out.append(o)
         if len(lines) > 1:
-            self.retries = n
+            self.retries = len(marked)
+            self.retried_lines = tuple(marked)
         return out
 
     def extra(self, tier, rng, ctx):
-        if self.retries:
-            return [("note", "%d case(s) contained a timeout on the first attempt and were run a second time by the engine "
-                     "(the second result is the one compared)" % self.retries, None)]
-        return []
+        """A first attempt that contained a timeout is forgiven (the machine may be loaded) - but counted, and only a
+        handful per run: an intermittent lost wake-up shows as exactly that, a timeout that is gone the second time.
+        A timeout the MODEL predicts (nothing there to read) is no such thing and is not counted."""
+        if not self.retries:
+            return []
+        model = dict(zip(ctx["lines"], ctx["model"]))
+        unexpected = [l for l in self.retried_lines if "timeout" not in model.get(l, "")]
+        res = [("note", "%d case(s) contained a timeout on the first attempt and were run a second time by the engine "
+                "(the second result is the one compared); %d of them unexpected (the model predicts no timeout), at most "
+                "%d are forgiven" % (self.retries, len(unexpected), self.MAX_FORGIVEN), None)]
+        if len(unexpected) > self.MAX_FORGIVEN:
+            res.append(("broken", "correspondence: %d cases timed out on the first attempt and not on the second (more than the %d "
+                        "a loaded machine is forgiven): an intermittent stall, e.g. a lost wake-up; first: `%s`"
+                        % (len(unexpected), self.MAX_FORGIVEN, unexpected[0]), None))
+        return res
 
     def klass(self, line, impl):
         kinds = set()
